@@ -71,6 +71,7 @@ type Opts struct {
 	Contracts      bool
 	Versions       []config.ConsensusVerson // allowed consensus versions (default all)
 	NoShuffleSeeds bool
+	MostlyValidated bool // genesis identities are Verified/Human/Newbie with few exceptions
 }
 
 type Scn struct {
@@ -84,7 +85,9 @@ type Scn struct {
 	Nodes  []*simnode.Node
 	Net    *simipfs.Net
 	Script uint64
-	Opts   Opts
+	// PassBias: 0 = outcomes drawn uniformly over the score tables, 1 = most identities pass, 2 = nearly all pass
+	PassBias int
+	Opts     Opts
 	// statistics
 	Blocks, EmptyBlocks, TxIncluded int
 }
@@ -114,6 +117,7 @@ func New(r *vfw.Run, o Opts) *Scn {
 	}
 	n := o.MinIdent + t.Choose("cfg.nident", o.MaxIdent-o.MinIdent+1)
 	s.Script = uint64(t.Choose("cfg.script", 1<<30)) + 1
+	s.PassBias = t.Choose("cfg.passbias", 3)
 
 	// consensus config
 	vers := o.Versions
@@ -155,6 +159,9 @@ func New(r *vfw.Run, o Opts) *Scn {
 	for i := 0; i < n; i++ {
 		id := NewIdent("id", i)
 		st := states[t.Choose("cfg.state", len(states))]
+		if o.MostlyValidated && t.Choose("cfg.state.validated", 12) != 0 {
+			st = []state.IdentityState{state.Verified, state.Human, state.Newbie, state.Verified}[t.Choose("cfg.state.v", 4)]
+		}
 		if i == 0 {
 			// god: either a plain account or an identity
 			if t.Choose("cfg.godstate", 3) == 0 {
@@ -329,6 +336,12 @@ func (s *Scn) ScriptedEpoch(n *simnode.Node, height uint64, app *appstate.AppSta
 			noQualShort := pick(8) == 0
 			noQualLong := pick(8) == 0
 			shortQ = []uint32{0, 1, 2, 6}[pick(4)]
+			if s.PassBias > 0 && pick(2+4*s.PassBias) != 0 {
+				// a participant that did well
+				shortScore, longScore, totalScore = scoresTab[5+pick(3)], scoresTab[4+pick(4)], scoresTab[4+pick(4)]
+				totalFlips = []uint32{13, 24, 40}[pick(3)]
+				missed, noQualShort, noQualLong, shortQ = failAll, false, false, 6
+			}
 			shortPts = shortScore * float32(shortQ)
 			ns = ceremony.VerifDetermineNewIdentityState(id, shortScore, longScore, totalScore, totalFlips, missed, noQualShort, noQualLong, true, cc.EnableUpgrade10, shortQ, cc.EnableUpgrade12)
 		} else {
